@@ -519,11 +519,13 @@ def _attach_labware(att: Attachment):
     Labware.add = hooked("add", orig_add, +1)
     Labware.remove = hooked("remove", orig_remove, -1)
 
-    def condense_wrapper(self, n, label="last"):
+    def condense_wrapper(self, *a, **kw):
         A = _ATT
         if A is not None and A.keep_events:
+            n = a[0] if a else kw.get("n")
+            label = a[1] if len(a) > 1 else kw.get("label", "last")
             A.events.append({"kind": "condense", "labware": self, "name": self.name, "n": n, "label": label})
-        return orig_condense(self, n, label)
+        return orig_condense(self, *a, **kw)
 
     condense_wrapper.__wrapped__ = orig_condense
     Labware.condense_log = condense_wrapper
